@@ -34,6 +34,25 @@ pub enum Fam {
     Master,
 }
 
+pub struct Bz2Bomb {
+    pub len: usize,
+    pub crc32: u32,
+    pub bz2: Vec<u8>,
+}
+
+/// bzip2 streams of 1 / 20 / 70 / 200 MiB of zeros (45 to 177 bytes each; tools/bz2bombs.py).
+pub fn bz2_bombs() -> &'static [Bz2Bomb] {
+    static B: std::sync::OnceLock<Vec<Bz2Bomb>> = std::sync::OnceLock::new();
+    B.get_or_init(|| {
+        let v: serde_json::Value = serde_json::from_str(include_str!("../data/bz2bombs.json")).expect("bz2bombs.json");
+        v.as_array()
+            .unwrap()
+            .iter()
+            .map(|e| Bz2Bomb { len: e["len"].as_u64().unwrap() as usize, crc32: e["crc32"].as_u64().unwrap() as u32, bz2: hex::decode(e["bz2_hex"].as_str().unwrap()).unwrap() })
+            .collect()
+    })
+}
+
 fn cs(o: &mut Vec<u8>, s: &str) {
     o.extend_from_slice(s.as_bytes());
     o.push(0);
@@ -123,7 +142,33 @@ pub fn templates(t: &mut Tape, fam: Fam) -> Vec<Vec<u8>> {
                 d
             };
             let gold = fam == Fam::ValveGoldSrc;
-            match t.draw(DATA, 3) {
+            match t.draw(DATA, 4) {
+                3 if !gold => {
+                    // the players answer as a bzip2-compressed split response whose stream inflates to far
+                    // more than it announces (or exactly to what it announces, far above any real answer)
+                    let b = &bz2_bombs()[t.draw(DATA, bz2_bombs().len() as u64) as usize];
+                    let announced: u32 = match t.draw(DATA, 8) {
+                        0 => 0,
+                        1 => 100,
+                        2 => 16 << 20,
+                        3 => (16 << 20) + 1,
+                        4 => u32::MAX,
+                        5 => 4 << 20,
+                        6 => (4 << 20) + 1,
+                        _ => b.len as u32,
+                    };
+                    let total = 1 + t.draw(DATA, 2) as u8;
+                    let mut d = vec![0xfe, 0xff, 0xff, 0xff, 9, 0, 0, 0x80, total, 0, 0xe0, 0x04];
+                    d.extend_from_slice(&announced.to_le_bytes());
+                    d.extend_from_slice(&b.crc32.to_le_bytes());
+                    d.extend_from_slice(&b.bz2);
+                    let mut items = vec![info, d];
+                    if total == 2 {
+                        items.push(vec![0xfe, 0xff, 0xff, 0xff, 9, 0, 0, 0x80, 2, 1, 0xe0, 0x04]);
+                    }
+                    items.push(rules);
+                    items
+                }
                 0 => vec![info, chal.clone(), players, chal, rules],
                 1 => vec![chal.clone(), info, chal.clone(), players, chal, mk(0, &rules[.. mid], gold), mk(1, &rules[mid ..], gold)],
                 _ => vec![info, players, rules],
@@ -592,6 +637,10 @@ pub fn script(t: &mut Tape, fam: Fam, extreme: bool) -> Vec<Vec<u8>> {
     let mut items: Vec<Vec<u8>> = match mode {
         0 ..= 4 => {
             let mut items = templates(t, fam);
+            // families with a multi-packet framing: one script in three gets contradictory index fields
+            if matches!(fam, Fam::Valve | Fam::ValveGoldSrc | Fam::ValveShip | Fam::Ffow | Fam::Gs1 | Fam::Gs3 | Fam::Jc2m) && t.draw(DATA, 3) == 0 {
+                index_games(t, fam, &mut items);
+            }
             // damage one to three replies
             let dmg = if mode == 0 { 0 } else { 1 + t.draw(DATA, 3) };
             for _ in 0 .. dmg {
@@ -647,6 +696,95 @@ pub fn script(t: &mut Tape, fam: Fam, extreme: bool) -> Vec<Vec<u8>> {
     items
 }
 
+const INDEX_VALUES: &[u8] = &[0, 1, 2, 3, 4, 5, 8, 0x0f, 0x10, 0x12, 0x21, 0x7f, 0x80, 0x81, 0x82, 0x83, 0x85, 0xfe, 0xff];
+
+/// "Inconsistent length, count or index fields": give the multi-packet framing of a script (split
+/// packets, numbered parts, last-packet flags) freshly drawn small / flagged values, and add a few
+/// more packets of the same framing, so that announced counts, packet numbers and last-packet
+/// flags contradict each other and the number of packets that really arrive.
+pub fn index_games(t: &mut Tape, fam: Fam, items: &mut Vec<Vec<u8>>) {
+    let idx = |t: &mut Tape| *t.pick(DATA, INDEX_VALUES);
+    match fam {
+        Fam::Valve | Fam::ValveGoldSrc | Fam::ValveShip | Fam::Ffow => {
+            // more fragments of the same answer
+            if let Some(last) = items.iter().rposition(|d| d.starts_with(&[0xfe, 0xff, 0xff, 0xff])) {
+                for _ in 0 .. t.draw(DATA, 4) {
+                    let c = items[last].clone();
+                    items.insert(last + 1, c);
+                }
+            }
+            for d in items.iter_mut() {
+                if d.starts_with(&[0xfe, 0xff, 0xff, 0xff]) && d.len() > 9 {
+                    if fam == Fam::ValveGoldSrc {
+                        d[8] = idx(t);
+                    } else {
+                        d[8] = idx(t);
+                        d[9] = idx(t);
+                    }
+                    if t.draw(DATA, 4) == 0 {
+                        d[7] ^= 0x80; // compressed flag of the answer id
+                    }
+                    if t.draw(DATA, 4) == 0 {
+                        d[4] = d[4].wrapping_add(1); // another answer id
+                    }
+                }
+            }
+        }
+        Fam::Gs3 | Fam::Jc2m => {
+            let is_data = |d: &Vec<u8>| d.len() > 16 && d[0] == 0 && &d[5 .. 14] == b"splitnum\0";
+            if let Some(last) = items.iter().rposition(is_data) {
+                for _ in 0 .. t.draw(DATA, 4) {
+                    let c = items[last].clone();
+                    items.insert(last + 1, c);
+                }
+            }
+            for d in items.iter_mut() {
+                if is_data(d) {
+                    d[14] = idx(t);
+                    if t.draw(DATA, 2) == 0 {
+                        d[15] = idx(t);
+                    }
+                }
+            }
+        }
+        Fam::Gs1 => {
+            // part numbers and the final marker
+            let nums: &[&str] = &["0", "1", "2", "3", "5", "9", "255", "256", "65536", "4294967295", "4294967296", "40000000", "-1", ""];
+            if let Some(last) = items.iter().rposition(|d| d.windows(9).any(|w| w == b"\\queryid\\")) {
+                for _ in 0 .. t.draw(DATA, 3) {
+                    let c = items[last].clone();
+                    items.insert(last + 1, c);
+                }
+            }
+            for d in items.iter_mut() {
+                if !d.windows(9).any(|w| w == b"\\queryid\\") {
+                    continue;
+                }
+                let text = String::from_utf8_lossy(d).to_string();
+                let mut out = String::new();
+                let mut rest = text.as_str();
+                while let Some(p) = rest.find("\\queryid\\") {
+                    let (head, tail) = rest.split_at(p + 9);
+                    out.push_str(head);
+                    let end = tail.find('\\').unwrap_or(tail.len());
+                    let id = *t.pick(DATA, nums);
+                    let part = *t.pick(DATA, nums);
+                    out.push_str(&format!("{id}.{part}"));
+                    rest = &tail[end ..];
+                }
+                out.push_str(rest);
+                match t.draw(DATA, 3) {
+                    0 => out = out.replace("\\final\\", "\\"),
+                    1 if !out.contains("\\final\\") => out.push_str("\\final\\"),
+                    _ => {}
+                }
+                *d = out.into_bytes();
+            }
+        }
+        _ => {}
+    }
+}
+
 /// Script-level damage: drop / duplicate / swap replies, or repeat the whole script.
 pub fn damage_script(t: &mut Tape, items: &mut Vec<Vec<u8>>) {
     if !items.is_empty() {
@@ -677,6 +815,12 @@ pub fn damage_script(t: &mut Tape, items: &mut Vec<Vec<u8>>) {
 /// Damage a recorded valid reply sequence (the replies a reference-model server really sent in a
 /// valid conversation of this very entry point).
 pub fn damage_recorded(t: &mut Tape, mut items: Vec<Vec<u8>>, extreme: bool) -> Vec<Vec<u8>> {
+    if t.draw(DATA, 3) == 0 {
+        // whichever multi-packet framing the recorded replies use (each call only touches its own)
+        index_games(t, Fam::Valve, &mut items);
+        index_games(t, Fam::Gs3, &mut items);
+        index_games(t, Fam::Gs1, &mut items);
+    }
     let dmg = t.draw(DATA, 4); // 0: replay unchanged
     for _ in 0 .. dmg {
         if items.is_empty() {
